@@ -259,9 +259,10 @@ fn gen_tags(rng: &mut Rng) -> Value {
 pub fn gen_event(rng: &mut Rng) -> Value {
     let mut m = ObjectMap::new();
     if rng.chance(3, 4) {
-        m.insert("message".into(), gen_leaf_value(rng));
+        let v = if rng.chance(3, 4) { Value::Bytes((*rng.pick(STRS)).to_string().into()) } else { gen_leaf_value(rng) };
+        m.insert("message".into(), v);
     }
-    if rng.chance(1, 2) {
+    if rng.chance(2, 3) {
         m.insert("tags".into(), gen_tags(rng));
     }
     if rng.chance(1, 4) {
@@ -276,26 +277,43 @@ pub fn gen_event(rng: &mut Rng) -> Value {
         }
         m.insert("custom".into(), Value::Object(c));
     }
-    for _ in 0..rng.below(4) {
-        let k = *rng.pick(ATTR_KEYS);
-        let v = if rng.chance(1, 4) {
+    for k in ["a", "n", "host", "service", "status"] {
+        if rng.chance(1, 2) {
+            m.insert(k.into(), gen_leaf_value(rng));
+        }
+    }
+    if rng.chance(1, 3) {
+        let mut o = ObjectMap::new();
+        o.insert("y".into(), gen_leaf_value(rng));
+        m.insert("x".into(), Value::Object(o));
+    }
+    if rng.chance(1, 3) {
+        let mut o = ObjectMap::new();
+        o.insert("status_code".into(), Value::Integer(*rng.pick(&[200, 404, 500, 5, 10])));
+        m.insert("http".into(), Value::Object(o));
+    }
+    if rng.chance(1, 3) {
+        // `a` as an object or array so that `@a.b`, `@a[0]` address something
+        let v = if rng.chance(1, 2) {
             let mut o = ObjectMap::new();
-            for _ in 0..(1 + rng.below(2)) {
-                o.insert((*rng.pick(ATTR_KEYS)).into(), gen_leaf_value(rng));
-            }
+            o.insert("b".into(), gen_leaf_value(rng));
             Value::Object(o)
         } else {
-            gen_leaf_value(rng)
+            Value::Array((0..1 + rng.below(3)).map(|_| gen_leaf_value(rng)).collect())
         };
-        m.insert(k.into(), v);
+        m.insert("a".into(), v);
+    }
+    for _ in 0..rng.below(3) {
+        let k = *rng.pick(ATTR_KEYS);
+        m.insert(k.into(), gen_leaf_value(rng));
     }
     Value::Object(m)
 }
 
 const QFIELDS: &[&str] = &[
     "", "", "", "message", "host", "service", "status", "tags", "@a", "@a.b", "@n", "@x.y", "@http.status_code", "env", "k", "kk",
-    "custom.title", "custom.error.message", "@message", "@tags", "@a[0]", "@a[-1]", "@\\\"a\\ b\\\"", "@", "@a..b", "@a.", "a", "b",
-    "c", "@k\\-1", "_default_", "@custom", "timestamp", "source",
+    "custom.title", "custom.error.message", "@message", "@tags", "@a[0]", "@a[-1]", "@\\\"a\\ b\\\"", "@", "@a..b", "a", "b",
+    "c", "@k\\-1", "_default_", "@custom", "timestamp", "source", "@a", "@n", "@a.b", "host", "service", "@x.y", "env", "k",
 ];
 const QVALS: &[&str] = &[
     "foo", "bar", "foo*", "*bar", "f*o", "*", "f?o", "\"foo bar\"", "\"foo\"", "5", "10", "1.5", "abc", "b", "x", "prod", "dev",
@@ -425,8 +443,10 @@ pub fn generate(sink: &mut Sink, rng: &mut Rng, n: u64) {
         }
         if i % 3 == 0 {
             let attr = *rng.pick(&["@a", "@n", "@a.b", "k", "env", "host", "message", "tags", "", "@x.y", "status"]);
-            let lo = *rng.pick(RANGEVALS);
-            let hi = *rng.pick(RANGEVALS);
+            // bounds that denote the same value inside a range and after a comparison operator
+            const SAFE: &[&str] = &["5", "10", "1.5", "abc", "b", "9", "0", "-1", "*", "foo", "z", "2", "prod", "dev", "y", "a", "100"];
+            let lo = *rng.pick(SAFE);
+            let hi = *rng.pick(SAFE);
             let incl = rng.chance(1, 2);
             let ev = show_value(&gen_event(rng));
             let b = if incl { "1" } else { "0" };
